@@ -28,6 +28,7 @@ THIRD = '10.0.0.3:25000'
 L_NICK = '10.0.0.1'
 R_NICK = '10.0.0.2'
 STEREO = 'supvisors_test'
+MULTI = 'two_instances'       # stereotype shared by the peer (10.0.0.2) and the STOPPED instance (10.0.0.3)
 
 STATES = ['OFF', 'SYNCHRONIZATION', 'ELECTION', 'DISTRIBUTION', 'OPERATION', 'CONCILIATION', 'RESTARTING',
           'SHUTTING_DOWN', 'FINAL']
@@ -59,7 +60,7 @@ SIGNATURES = {
 STRATS = ['StOk', 'StOkInt', 'StUser', 'StBadStr', 'StBadInt', 'StBadType']
 APPS = ['ApStopped', 'ApRunning', 'ApUnmanaged', 'ApUnknown']
 PROCS = ['PrKnown', 'PrUnknown', 'PrStar', 'PrNone', 'PrInt']
-INSTS = ['InIdent', 'InNick', 'InStereo', 'InUnknown', 'InEmpty', 'InStopped']
+INSTS = ['InIdent', 'InNick', 'InStereo', 'InUnknown', 'InEmpty', 'InStopped', 'InMulti']
 PROGS = ['PgKnown', 'PgUnknown']
 NUMS = ['NumOk', 'NumZero', 'NumStr']
 LEVELS = ['LvOk', 'LvOkInt', 'LvBad', 'LvBadInt']
@@ -118,9 +119,9 @@ def strat_value(meth, s):
 def inst_value(meth, i):
     if meth == 'end_sync':
         return {'InIdent': R, 'InNick': R_NICK, 'InStereo': STEREO, 'InUnknown': 'nope', 'InEmpty': '',
-                'InStopped': THIRD}[i]
+                'InStopped': THIRD, 'InMulti': MULTI}[i]
     return {'InIdent': L, 'InNick': L_NICK, 'InStereo': STEREO, 'InUnknown': 'nope', 'InEmpty': '',
-            'InStopped': THIRD}[i]
+            'InStopped': THIRD, 'InMulti': MULTI}[i]
 
 
 def concrete_args(req):
@@ -260,6 +261,10 @@ class World:
         sv.options.synchro_options = ([SynchronizationOptions.USER] if user_sync
                                       else [SynchronizationOptions.TIMEOUT])
         sv.parser = FakeParser()
+        # configuration data: a stereotype carried by two instances (what their identification events assign;
+        # the local instance already has its own stereotype and an instance is assigned stereotypes only once)
+        sv.mapper._assign_stereotypes(R, {MULTI})
+        sv.mapper._assign_stereotypes(THIRD, {MULTI})
         log = self.log
         sv.rpc_handler = Rec(log, 'rpc_handler')
         sv.starter = Rec(log, 'starter', {'in_progress': lambda: self.busy['starter'],
@@ -663,11 +668,6 @@ class RpcGateSuite(Suite):
     prelude = 'From Sup Require Import Base RpcGate.\nOpen Scope Z_scope.'
     case_type = 'case'
     evals = {'mismatches': 'mismatches', 'spec_violations': 'spec_violations',
-             'known:restart-application-unmanaged': 'known_restart_application_unmanaged',
-             'known:network-info-not-an-identifier': 'known_network_info_identifier',
-             'known:restart-shutdown-without-master': 'known_restart_shutdown_no_master',
-             'known:start-args-group-namespec': 'known_start_args_group',
-             'known:start-any-process-ill-formed-regex': 'known_any_process_regex',
              'known:namespec-not-a-string': 'known_namespec_not_string'}
     shard_size = 800
     exhaustive = True
@@ -745,8 +745,9 @@ class RpcGateSuite(Suite):
 
 # ---------------------------------------------------------------------------------------------------------------
 def replay_findings():
-    """ independent replays of the C17 findings on the real RPCInterface, without the worlds of this driver
-    (MockedSupvisors of the test-suite; run: PYTHONPATH=/repo /venv/bin/python harness/drv_rpc.py) """
+    """ independent replays, on the real RPCInterface and without the worlds of this driver (MockedSupvisors of the
+    test-suite), of the former C17 findings (fixed in /repo: they must now give clean faults / results) and of the
+    remaining one (N3).  Run: PYTHONPATH=/repo /venv/bin/python harness/drv_rpc.py """
     from unittest.mock import Mock
     from supervisor.xmlrpc import RPCError
     from supvisors.rpcinterface import RPCInterface
@@ -765,13 +766,14 @@ def replay_findings():
         except Exception as e:
             print(label, '-> EXCEPTION', type(e).__name__, e)
 
-    attempt("F20 get_instance_info('10.0.0.1')[0]['identifier']", lambda: rpc.get_instance_info('10.0.0.1')[0]['identifier'])
-    attempt("F20 get_network_info('10.0.0.1')", lambda: rpc.get_network_info('10.0.0.1'))
-    attempt("F20 get_network_info('supvisors_test')", lambda: rpc.get_network_info('supvisors_test'))
+    attempt("F20 get_network_info('10.0.0.1')['identifier']", lambda: rpc.get_network_info('10.0.0.1')['identifier'])
+    attempt("F20 get_network_info('supvisors_test')['identifier']",
+            lambda: rpc.get_network_info('supvisors_test')['identifier'])
+    sv.mapper._assign_stereotypes(R, {MULTI})
+    sv.mapper._assign_stereotypes(THIRD, {MULTI})
+    attempt(f"F20 get_network_info('{MULTI}')", lambda: rpc.get_network_info(MULTI))
     sv.fsm.state = SupvisorsStates.OPERATION
     sv.context.applications['appU'] = ApplicationStatus('appU', ApplicationRules(sv), sv)   # not Managed
-    attempt("F19 start_application('CONFIG', 'appU')", lambda: rpc.start_application('CONFIG', 'appU'))
-    attempt("F19 stop_application('appU')", lambda: rpc.stop_application('appU'))
     attempt("F19 restart_application('CONFIG', 'appU', False)", lambda: rpc.restart_application('CONFIG', 'appU', False))
     print('     stopper calls:', [c[0] for c in sv.stopper.method_calls])
     sv.rpc_handler = Mock()
@@ -783,7 +785,7 @@ def replay_findings():
     sv.context.applications['appU'].processes['u1'] = Mock(namespec='appU:u1')
     attempt("N1 start_args('appU:*', '')", lambda: rpc.start_args('appU:*', ''))
     attempt("N2 start_any_process('CONFIG', '(')", lambda: rpc.start_any_process('CONFIG', '('))
-    attempt("N3 get_process_info(7)", lambda: rpc.get_process_info(7))
+    attempt("N3 get_process_info(7)   [known finding namespec-not-a-string]", lambda: rpc.get_process_info(7))
 
 
 if __name__ == '__main__':
